@@ -19,8 +19,10 @@
 EXTENDS PdfSyntax
 
 CONSTANTS
-  WriterAddsLength,   \* TRUE: Format adds /L when the data could be cut short (proposed repair of F9)
-  WriterEscapesKeys   \* TRUE: keys of the image dictionary go through formatName; nil entries are skipped
+  WriterAddsLength,   \* TRUE: Format adds /L when the data could be cut short (writer.go since the repair
+                      \* of finding F9, commit f98abbe); FALSE: the writer before it (negative control)
+  WriterEscapesKeys   \* TRUE: keys of the image dictionary go through formatName and nil entries are
+                      \* skipped (commits ab31f81, a9c15ec); FALSE: written raw (negative control)
 
 MkOp(name, args) == [name |-> name, args |-> args]
 bImage == <<37, 105, 109, 97, 103, 101, 37>>     \* %image%
